@@ -492,6 +492,16 @@ WITNESSES = [
     {"name": "transfer-pickle-drops-copy", "file": "mlinsights/mlmodel/transfer_transformer.py", "rule": "C04.f", "old": "    def transform(self, X):", "new": "    def __getstate__(self):\n        state = dict(self.__dict__)\n        state[\"estimator_\"] = None\n        return state\n\n    def transform(self, X):"},
     {"name": "criterion-no-getstate", "file": _CY, "rule": "C04.d", "old": "    def __getstate__(self):", "new": "    def _getstate_disabled(self):"},
 ]
+# witnesses of the rules added after the ninth round (C04.g has no instance on the pinned tree:
+# the first witness is its positive example, the second the twin that must stay silent)
+_PE = "mlinsights/mlmodel/piecewise_estimator.py"
+_ROWLOOP = "            for i, x in enumerate(tr):\n                d = tuple(numpy.asarray(x.todense()).ravel().astype(numpy.int32))\n                association[i] = self.mapping_.get(d, -1)\n"
+WITNESSES += [
+    {"name": "blocks-one-row-short", "file": _PE, "rule": "C04.g", "old": _ROWLOOP, "new": "            step = 256\n            for begin in range(0, X.shape[0], step):\n                rows = tr[begin : begin + step - 1].toarray().astype(numpy.int32)\n                for i, x in enumerate(rows):\n                    association[begin + i] = self.mapping_.get(tuple(x), -1)\n"},
+    {"name": "positions-tested-for-truth", "file": _PE, "rule": "C04.i", "old": "            for j in self.leaves_:\n                ind = dec_path[:, j] == 1\n                ind = numpy.asarray(ind.todense()).flatten()\n", "new": "            for j in self.leaves_:\n                ind = (dec_path[:, j] == 1).nonzero()[0]\n"},
+]
+
+
 TWINS = [
     {"name": "dtlr-loop-over-sides-continue", "file": _DT, "old": "        if self.above is not None and n_above > 0:\n            prob_above = self.above.predict_proba(X[above])\n            prob[above] = prob_above\n        if self.below is not None and n_below > 0:\n            prob_below = self.below.predict_proba(X[below])\n            prob[below] = prob_below\n", "new": "        for child, side in ((self.above, above), (self.below, below)):\n            if child is None or not side.any():\n                continue\n            prob[side] = child.predict_proba(X[side])\n"},
     {"name": "dtlr-local-mask-alias-free", "file": _DT, "old": "            prob_above = self.above.predict_proba(X[above])\n            prob[above] = prob_above\n", "new": "            prob[above] = self.above.predict_proba(X[above])\n"},
